@@ -47,6 +47,25 @@ class App19(c02.ProgApp):
                 headers.append(("Content-Length", str(cl)))
             start_response(status, headers)
             return ClosingRaises(list(chunks))
+        if environ["PATH_INFO"] == "/first" and self.prog[3] == "write-late-excinfo":
+            # head and first bytes are out when an error path calls start_response again with exc_info; the call
+            # re-raises (WSGI), the application swallows that and finishes the response it began
+            import sys
+            self.calls.append("/first")
+            status, cl, chunks, _d, _f = self.prog
+            headers = [("Content-Type", "text/plain")]
+            if cl is not None:
+                headers.append(("Content-Length", str(cl)))
+            write = start_response(status, headers)
+            write(chunks[0] if chunks else b"")
+            try:
+                raise ValueError("late")
+            except ValueError:
+                try:
+                    start_response("500 Late Error", [("Content-Type", "text/plain")], sys.exc_info())
+                except ValueError:
+                    pass
+            return list(chunks[1:])
         return super().__call__(environ, start_response)
 
 
@@ -59,6 +78,7 @@ def programs19(method):
             yield prog
             if prog[3] == "list":
                 yield (prog[0], prog[1], prog[2], "iter-close-raises", None)
+                yield (prog[0], prog[1], prog[2], "write-late-excinfo", None)
 
 
 def judge_truth(key, prog, kind, o, calls):
